@@ -481,3 +481,25 @@ pub fn pos_neg_of_native_int(x: &isize) -> isize {
 pub fn neg_checked_neg(x: &isize) -> Option<isize> {
     x.checked_neg()
 }
+
+// ---------------------------------------------------------------- R15.9 / R15.10 re-wrapped sink errors, mandatory size hints
+pub fn pos_rewrapped_io_error<W: std::io::Write>(w: &mut W) -> std::io::Result<()> {
+    w.write_all(b".\n").map_err(|e| std::io::Error::new(std::io::ErrorKind::Other, e))
+}
+pub fn neg_io_error_from_message<W: std::io::Write>(w: &mut W, ok: bool) -> std::io::Result<()> {
+    if !ok {
+        return Err(std::io::Error::new(std::io::ErrorKind::InvalidData, "not representable"));
+    }
+    w.write_all(b".\n")
+}
+pub fn pos_capacity_from_hint<I: Iterator<Item = u32>>(it: I) -> Vec<u32> {
+    let mut v = Vec::with_capacity(it.size_hint().0);
+    v.extend(it);
+    v
+}
+pub fn neg_try_reserve_from_hint<I: Iterator<Item = u32>>(it: I) -> Vec<u32> {
+    let mut v = Vec::new();
+    let _ = v.try_reserve(it.size_hint().0);
+    v.extend(it);
+    v
+}
